@@ -92,7 +92,8 @@ type plan struct {
 	FragC2S  []int      `json:"fragC2S"`
 	FragS2C  []int      `json:"fragS2C"`
 	Coalesce bool       `json:"coalesce"`
-	Order    int        `json:"order"` // 0: client data first; 1: server speaks first
+	Order    int        `json:"order"`  // 0: client data first; 1: server speaks first
+	Duplex   bool       `json:"duplex"` // the four application-side activities run concurrently
 	Seed     uint64     `json:"seed"`
 }
 
@@ -210,8 +211,16 @@ func drawPlan(rt *rapid.T) (p plan, nearConst bool) {
 	p.FragS2C = rapid.SliceOfN(fragGen, 0, 5).Draw(rt, "fragS2C")
 	p.Coalesce = rapid.Bool().Draw(rt, "coalesce")
 	p.Order = rapid.IntRange(0, 1).Draw(rt, "order")
+	p.Duplex = rapid.IntRange(0, 3).Draw(rt, "duplex") == 0
 	p.Seed = rapid.Uint64().Draw(rt, "seed")
 	return p, nearConst
+}
+
+func b2i(b bool) int {
+	if b {
+		return 1
+	}
+	return 0
 }
 
 func sum(s []int) (n int) {
@@ -405,10 +414,13 @@ func runPlan(p plan) (res *outcome, labels []string) {
 	}
 
 	// ---- data phases (sequential on the application side; the transport never blocks writers)
-	up := func() *outcome {
+	upW := func() *outcome {
 		if err := writeAll(appClient, c2s, p.C2S, p.WPathC); err != nil {
 			return fail("C01/client-write-error", "%v", err)
 		}
+		return nil
+	}
+	upR := func() *outcome {
 		got, err := readAll(appServer, p.C2SBufs, p.RPathS, len(wantUp)+1024)
 		got = append(firstPayload, got...)
 		if err != nil {
@@ -419,10 +431,13 @@ func runPlan(p plan) (res *outcome, labels []string) {
 		}
 		return nil
 	}
-	down := func() *outcome {
+	downW := func() *outcome {
 		if err := writeAll(appServer, s2c, p.S2C, p.WPathS); err != nil {
 			return fail("C01/server-write-error", "%v", err)
 		}
+		return nil
+	}
+	downR := func() *outcome {
 		got, err := readAll(appClient, p.S2CBufs, p.RPathC, len(s2c)+1024)
 		if err != nil {
 			return fail("C01/client-read-error", "after %d of %d bytes: %v", len(got), len(s2c), err)
@@ -432,19 +447,33 @@ func runPlan(p plan) (res *outcome, labels []string) {
 		}
 		return nil
 	}
+	var steps []func() *outcome
 	if p.Order == 0 {
-		if o := up(); o != nil {
-			return o, nil
+		steps = []func() *outcome{upW, upR, downW, downR}
+	} else {
+		steps = []func() *outcome{downW, downR, upW, upR}
+	}
+	if p.Duplex {
+		// full duplex: the four application-side activities run concurrently (the verdict is
+		// still a pure function of the plan: contents and EOF positions do not depend on timing)
+		res := make(chan *outcome, len(steps))
+		for _, st := range steps {
+			go func() { res <- st() }()
 		}
-		if o := down(); o != nil {
-			return o, nil
+		var first *outcome
+		for range steps {
+			if o := <-res; o != nil && first == nil {
+				first = o
+			}
+		}
+		if first != nil {
+			return first, nil
 		}
 	} else {
-		if o := down(); o != nil {
-			return o, nil
-		}
-		if o := up(); o != nil {
-			return o, nil
+		for _, st := range steps {
+			if o := st(); o != nil {
+				return o, nil
+			}
 		}
 	}
 	for i := 0; i < relayN; i++ {
@@ -546,7 +575,7 @@ var rec = ev.New("C01", "tunnel-ledger",
 		"checking address bytes, initial-payload split, padding bound, chunk sizes 1..65535 and plaintext equality. "+
 		"Non-trivial: bytes>0 both ways AND (a length within +-3 of a structural constant, or a read buffer smaller than a chunk, or a fragment boundary inside a length chunk, or relay topology). "+
 		"Distinct key: config class + topology + paths + order + boundary classes of payload/write lengths").
-	Require("relay", "eih>=2", "prefix>64KiB", "payload-over-room", "leftover-read", "frag-inside-length-chunk", "path-readfrom", "path-writeto", "server-first", "multi-chunk", "not-segmented", "domain>=254")
+	Require("relay", "eih>=2", "prefix>64KiB", "payload-over-room", "leftover-read", "frag-inside-length-chunk", "path-readfrom", "path-writeto", "server-first", "duplex", "multi-chunk", "not-segmented", "domain>=254")
 
 func lenClass(n int) string {
 	switch {
@@ -572,7 +601,7 @@ func planKey(p plan) string {
 	if p.Relay != 0 {
 		sb.WriteString("|" + p.Cls2.key())
 	}
-	fmt.Fprintf(&sb, "|%s%d|P%s|w%d%d%d%d|o%d|c%v|", p.Target.Kind, p.Target.DomLen/64, lenClass(p.Payload), p.WPathC, p.RPathS, p.WPathS, p.RPathC, p.Order, p.Coalesce)
+	fmt.Fprintf(&sb, "|%s%d|P%s|w%d%d%d%d|o%d|c%v|", p.Target.Kind, p.Target.DomLen/64, lenClass(p.Payload), p.WPathC, p.RPathS, p.WPathS, p.RPathC, p.Order*2+b2i(p.Duplex), p.Coalesce)
 	for _, w := range p.C2S {
 		sb.WriteString(lenClass(w) + ",")
 	}
@@ -604,6 +633,7 @@ func classify(p plan, near bool, extra []string) (labels []string, nt bool) {
 	add(p.WPathC == pathRF || p.WPathS == pathRF, "path-readfrom")
 	add(p.RPathC == pathRF || p.RPathS == pathRF, "path-writeto")
 	add(p.Order == 1, "server-first")
+	add(p.Duplex, "duplex")
 	add(!p.Cls.Segmented, "not-segmented")
 	add(p.Target.Kind == "domain" && p.Target.DomLen >= 254, "domain>=254")
 	add(p.Target.Kind == "v4mapped", "v4mapped")
@@ -621,8 +651,13 @@ func classify(p plan, near bool, extra []string) (labels []string, nt bool) {
 	return
 }
 
-func TestTunnelLedger(t *testing.T) {
-	rapid.Check(t, func(rt *rapid.T) {
+func TestTunnelLedger(t *testing.T) { rapid.Check(t, tunnelProp) }
+
+// FuzzTunnel drives the same property with Go's coverage-guided fuzzer (thorough tier).
+func FuzzTunnel(f *testing.F) { f.Fuzz(rapid.MakeFuzz(tunnelProp)) }
+
+func tunnelProp(rt *rapid.T) {
+	{
 		p, near := drawPlan(rt)
 		type result struct {
 			o      *outcome
@@ -661,7 +696,7 @@ func TestTunnelLedger(t *testing.T) {
 		if nt {
 			rec.Sample(p)
 		}
-	})
+	}
 }
 
 // TestReplayPlan re-runs a JSON plan (VERIF_REPLAY) outside rapid.
